@@ -133,6 +133,7 @@ func registerCryptoModels() {
 		e.safety(fr, st, overlapOK(dst, ct, n), "aead-overlap", "AEAD.Open panics on inexact overlap of dst and ciphertext", pos)
 		pt := app("uf_aead_open_5", sem, nseq, "(s_len "+nonce.T+")", cseq, "(s_len "+ct.T+")")
 		junk := e.sc.freshConst("open.junk", "(Array Int Int)")
+		e.sc.assume(st.reach, fmt.Sprintf("(forall ((qb Int)) (! (and (<= 0 (select %s qb)) (<= (select %s qb) 255)) :pattern ((select %s qb))))", junk, junk, junk))
 		// success: plaintext appended to dst; failure: the output region may have been overwritten (zeroed)
 		e.seqLit(st, nonce, 12)
 		res := appendBytes(e, st, dst, n, func(k string) string { return ite(ok, sel(pt, k), sel(junk, k)) }, "")
